@@ -1346,7 +1346,7 @@ func RunC10(ctx *core.Ctx) {
 		r := ctx.Rand("c10-history")
 		var reqs []string
 		var pend []func(string)
-		for i, n := 0, ctx.Scale(6000, 90000); i < n; i++ {
+		for i, n := 0, ctx.Scale(6000, 60000); i < n; i++ {
 			c10History(ctx, r, &reqs, &pend)
 			if len(reqs) >= 2000 {
 				c06Flush(ctx, d, &reqs, &pend)
@@ -1356,7 +1356,7 @@ func RunC10(ctx *core.Ctx) {
 	}
 	// 3. L1 cases, in parallel per worker (each with its own PRNG stream)
 	workers := 16
-	per := ctx.Scale(8000, 240000) / workers
+	per := ctx.Scale(8000, 120000) / workers
 	var wg sync.WaitGroup
 	for w := 0; w < workers; w++ {
 		wg.Add(1)
